@@ -55,4 +55,12 @@ Definition prop (k : case) : bool :=
       && nodupb incs
       && forallb (fun n => existsb (Nat.eqb n) incs) names
       && forallb (fun n => existsb (Nat.eqb n) names) incs
+      (* two molecules with one name: what would be written for either is the same — the number of exclusions, the atom
+         lines in written order with every written attribute, the interactions *)
+      && forallb (fun p => forallb (fun q =>
+             if Nat.eqb (fst p) (fst q)
+             then Z.eqb (m_nrexcl (snd p)) (m_nrexcl (snd q))
+                  && list_eqb (fun a b => ident_eqb (fst a) (fst b) && Z.eqb (snd a) (snd b)) (itp_atoms (snd p)) (itp_atoms (snd q))
+                  && Z.eqb (m_inter (snd p)) (m_inter (snd q))
+             else true) (combine names ms)) (combine names ms)
   end.
